@@ -181,7 +181,7 @@ class IndicatorNumberOfTardyTasks(Indicator):
 
         if self.list_of_tasks is None:
             tasks = processscheduler.base.active_problem.tasks.values()
-            self.name = "Total tardiness"
+            self.name = "Total number of tardy tasks"
         else:
             tasks = self.list_of_tasks
             self.name = (
